@@ -12,7 +12,7 @@
 // set of live goroutine ids; run it 40 more times, settle, record g2. The
 // property holds iff g2 <= g1. One-time process-wide workers (os/signal's
 // loop, cache sweepers) are started during the first batch and so never
-// count. When g2 > g1 the worker waits up to 10 s more for the count to come
+// count. When g2 > g1 the worker waits up to 6 s more for the count to come
 // back (a leaked goroutine is blocked forever; one that is merely slow to exit
 // on a loaded machine is not) and then reports the stacks of the goroutines
 // that exist now and did not exist at g1. If every such goroutine is runnable
@@ -65,6 +65,9 @@ type Case struct {
 const (
 	batch1 = 20
 	batch2 = 40
+	// how long a count that is still higher after the second batch is given
+	// to come back before the extra goroutines are examined
+	extendedWait = 6 * time.Second
 )
 
 // -------------------------------------------------------------- worker side
@@ -168,7 +171,7 @@ func init() {
 		rs.G2, rs.Settled = settle(2 * time.Second)
 		if rs.G2 > rs.G1 {
 			// leaked goroutines stay; slow ones go away
-			deadline := time.Now().Add(10 * time.Second)
+			deadline := time.Now().Add(extendedWait)
 			for time.Now().Before(deadline) && runtime.NumGoroutine() > rs.G1 {
 				time.Sleep(10 * time.Millisecond)
 			}
@@ -546,7 +549,7 @@ func oracle(c Case) vkit.Outcome {
 	worker.Kill()
 	out.Fail = &vkit.Failure{
 		Sig: sig,
-		Observed: fmt.Sprintf("goroutines after %d executions: %d, after %d more: %d (+%d, 10 s after the last one); outcomes %v; first error: %s\nextra goroutines by creator: %v, by state: %v\n%s",
+		Observed: fmt.Sprintf("goroutines after %d executions: %d, after %d more: %d (+%d, 6 s after the last one); outcomes %v; first error: %s\nextra goroutines by creator: %v, by state: %v\n%s",
 			batch1, m.G1, batch2, m.G2, m.G2-m.G1, phases, clip(m.Msg, 160), m.Creators, m.States, clip(strings.Join(m.Extra, "\n\n"), 5000)),
 		Expected: "the number of live goroutines does not grow when a finished execution is repeated (C09)",
 	}
@@ -574,7 +577,7 @@ func TestC09(t *testing.T) {
 			"Non-trivial: abnormal ending, or a callback from a runtime function, or a goroutine; distinct by entry+configuration+program text.",
 		Assumptions: []string{
 			"goroutines are counted with runtime.NumGoroutine / runtime.Stack in a worker process that runs nothing else",
-			"a count that is higher after the second batch is given 10 s to come back before it is a failure; if all extra goroutines are runnable the case is inconclusive",
+			"a count that is higher after the second batch is given 6 s to come back before it is a failure; if all extra goroutines are runnable the case is inconclusive",
 			"every goroutine a generated program starts finishes on its own; the debugger mode of /admin/run and Ego service files are not exercised",
 		},
 		Gen:       genCase,
@@ -582,7 +585,7 @@ func TestC09(t *testing.T) {
 		Fixed:     fixed,
 		Quick:     70,
 		Thorough:  1500,
-		MaxRounds: 5,
+		MaxRounds: 3,
 		Extra: func() map[string]any {
 			var ns []string
 			for k, n := range notes {
